@@ -181,7 +181,7 @@ KANI = []
 SATELLITES = [("C02", ["blob_constants", "BlobLocation", "BlobLocations", "from_blob_location", "can_coalesce", "append", "coalesce", "PackToDo", "RepackReason", "PackInfo", "PrunePack", "CopyPackBlobs", "RestorePackInfo", "restore_packinfo_coalesce"])]
 
 META = {"not_covered": [
-    "FileArchiver::backup_reader (iterator adapters with capturing closures), Archiver::archive (threads/channels), TreeArchiver::finalize (`mut self`)",
+    "the iterator chain of FileArchiver::backup_reader (its per-chunk closure is a unit of C07: backup_chunk), Archiver::archive (threads/channels), TreeArchiver::finalize (`mut self`)",
     "Tree::serialize (serde_json) and the node metadata / name escaping (strings, serde): uninterpreted",
     "restore writer, dump, metadata application; the composition of the kernels into backup -> restore",
     "summary counters assumed not to wrap (u64 sums of one run)",
